@@ -112,6 +112,21 @@ claim(
     "DESIGN.md section 4, C11",
 )
 
+claim(
+    "C13",
+    "call-graph-wide definite-error checker (symtable undefined names, import existence, call arity on resolved callees, control-dependence "
+    "classification); NEP-50 narrow-integer taint with inter-procedural constant propagation; schema-enum totality; raise-class discipline; "
+    "path-enumerated assert discharge for the tensor-purpose pass",
+    "Decides clauses a, a', b, c, d, e of DESIGN.md 4/C13 over every function reachable from vela.main/process/convert/convert_bytes and the public "
+    "api: no unconditional undefined name / bad import / impossible arity; no fixed-width NumPy integer meets an out-of-range Python int constant "
+    "(F19, F21 found and fixed); reader-indexed enum maps total or guarded (known finding F11); only VelaError subclasses raised deliberately and "
+    "main() converts them; checkers return False rather than raise; the purpose-conflict assertion is undischargeable from the per-operator pass. "
+    "Does NOT decide totality over all models (data-dependent index errors, asserts valid inputs can trip).",
+    "Trusted: name-based callee resolution (unresolved calls are counted in the evidence, not analysed); flow-insensitive narrow-int taint; "
+    "NumPy >= 2 semantics (NEP 50) as admitted by the unpinned dependency.",
+    "DESIGN.md section 4, C13",
+)
+
 
 def build():
     checks = []
